@@ -21,10 +21,18 @@ def revApplyO (b? : Option BAcct) (rev : Option ARevert) : Option BAcct :=
 def wipeOkO (b? : Option BAcct) (rev : Option ARevert) : Bool :=
   match rev with | none => true | some r => wipeOk b? r
 
+/-- what the pre-state `P'` of the bundle the revert is applied to must share with the pre-state `P` of the bundle
+that recorded it (`P' = P` for `revert` on the recording bundle itself; differs after `extend`) -/
+def RevCompat (rev : Option ARevert) (b0? : Option BAcct) (Ps : Nat → Nat) (Pi' : Option Info) (Ps' : Nat → Nat)
+    (Mi : Option Info) : Prop :=
+  ∀ r, rev = some r → (b0? = none → Mi = none → Pi' = none) ∧ (Pi' = none → ∀ k, Ps' k = 0) ∧
+    (r.wipe = true → ∀ k, Ps' k = Ps k)
+
 /-- `rev` leads from (a reverted entry matching) `b1?` / reference `R` back to `b0?` / reference `M` -/
-def RevTriple (rev : Option ARevert) (b0? b1? : Option BAcct) (Pi : Option Info) (Ps : Nat → Nat)
+def RevTriple (rev : Option ARevert) (b0? b1? : Option BAcct) (Ps : Nat → Nat)
     (Mi : Option Info) (Ms : Nat → Nat) (Ri : Option Info) (Rs : Nat → Nat) : Prop :=
-  ∀ b'?, RInv b'? b1? Pi Ps Ri Rs → wipeOkO b'? rev = true → RInv (revApplyO b'? rev) b0? Pi Ps Mi Ms
+  ∀ (Pi' : Option Info) (Ps' : Nat → Nat) b'?, RevCompat rev b0? Ps Pi' Ps' Mi → RInv b'? b1? Pi' Ps' Ri Rs →
+    wipeOkO b'? rev = true → RInv (revApplyO b'? rev) b0? Pi' Ps' Mi Ms
 
 theorem RInv.congr {b'? b? : Option BAcct} {Pi : Option Info} {Ps : Nat → Nat} {Mi Ri : Option Info}
     {Ms Rs : Nat → Nat} (h : RInv b'? b? Pi Ps Ri Rs) (hi : Mi = Ri) (hs : ∀ k, Ms k = Rs k) :
@@ -33,10 +41,10 @@ theorem RInv.congr {b'? b? : Option BAcct} {Pi : Option Info} {Ps : Nat → Nat}
   subst hi; subst this; exact h
 
 /-- an address without a transition in the group -/
-theorem revTriple_same (b? : Option BAcct) (Pi : Option Info) (Ps : Nat → Nat) (Mi : Option Info) (Ms : Nat → Nat)
+theorem revTriple_same (b? : Option BAcct) (Ps : Nat → Nat) (Mi : Option Info) (Ms : Nat → Nat)
     (Ri : Option Info) (Rs : Nat → Nat) (hi : Mi = Ri) (hs : ∀ k, Ms k = Rs k) :
-    RevTriple none b? b? Pi Ps Mi Ms Ri Rs :=
-  fun _ hR _ => hR.congr hi hs
+    RevTriple none b? b? Ps Mi Ms Ri Rs :=
+  fun _ _ _ _ hR _ => hR.congr hi hs
 
 /-- conclusion of `rev_core_some`, for every account the revert may be applied to -/
 def CoreSome (acc : BAcct) (t : Transition) (r : ARevert) (Pi : Option Info) (Ps : Nat → Nat) (Mi : Option Info)
@@ -115,10 +123,10 @@ the group to the entry before the group -/
 theorem rev_acct (b? : Option BAcct) (t : Transition) (c : CacheAcct) (Pi : Option Info) (Ps : Nat → Nat)
     (Mi : Option Info) (Ms : Nat → Nat) (Ri : Option Info) (Rs : Nat → Nat)
     (hb : BInv b? t.prevStatus Pi Ps Mi Ms) (hm : Facts t.prevStatus Mi Ms)
-    (ht : TInv t c Mi Ms Rs) (hc : CInv c Ri Rs) (hPz : Pi = none → ∀ k, Ps k = 0)
+    (ht : TInv t c Mi Ms Rs) (hc : CInv c Ri Rs)
     (b?' : Option BAcct) (rev : Option ARevert) (h1 : oneAcct b? t = some (b?', rev)) :
-    RevTriple rev b? b?' Pi Ps Mi Ms Ri Rs := by
-  intro b'? hR hwo
+    RevTriple rev b? b?' Ps Mi Ms Ri Rs := by
+  intro Pi' Ps' b'? hcmp hR hwo
   cases b? with
   | some acc =>
     obtain ⟨hb1, hb2⟩ := hb
@@ -159,9 +167,12 @@ theorem rev_acct (b? : Option BAcct) (t : Transition) (c : CacheAcct) (Pi : Opti
           have htn : t.status.wasDestroyed = false := by rw [← hst', hfam]; exact hwa
           exact keysSub_trans (fun k hk => hkeys htn k (Or.inl hk)) (w3 (by rw [hfam]; exact hwa))
       | some r =>
-        have hcore : CoreSome acc t r Pi Ps Mi Ms Ri Rs := fun b' a1 a2 a3 a4 =>
-          rev_core_some acc t c Pi Ps Mi Ms Ri Rs hb1 hm ht hc (Or.inl h5) acc' r hu b' a1 a2 a3 a4
-        have := lift_some acc t r Pi Ps Mi Ms Ri Rs hcore acc' (by rw [hst']) hkeys b'? hR hwo
+        obtain ⟨_, hPz', hwP⟩ := hcmp r rfl
+        have hdelP : t.prevStatus = .loadedNotExisting → Pi' = none := by
+          intro hl; rw [hl] at hb2; cases hb2
+        have hcore : CoreSome acc t r Pi' Ps' Mi Ms Ri Rs := fun b' a1 a2 a3 a4 =>
+          rev_core_some acc t c Pi Ps Mi Ms Ri Rs hb1 hm ht hc Pi' Ps' hdelP acc' r hu hwP b' a1 a2 a3 a4
+        have := lift_some acc t r Pi' Ps' Mi Ms Ri Rs hcore acc' (by rw [hst']) hkeys b'? hR hwo
         simp only [revApplyO]
         cases hx : revApply b'? r with
         | none =>
@@ -169,7 +180,7 @@ theorem rev_acct (b? : Option BAcct) (t : Transition) (c : CacheAcct) (Pi : Opti
           obtain ⟨w1, w2, w3⟩ := this
           have hhi : hasInfo t.prevStatus = false := by
             have := hm.some_iff; rw [w2] at this; exact this.symm
-          exact ⟨by rw [hb1.status]; exact hasInfo_false_st5 _ hhi hb2, w1, w2, w3, hPz w1⟩
+          exact ⟨by rw [hb1.status]; exact hasInfo_false_st5 _ hhi hb2, w1, w2, w3, hPz' w1⟩
         | some b'' => rw [hx] at this; exact this
   | none =>
     obtain ⟨hMP, hMsP, hndc⟩ := hb
@@ -192,16 +203,56 @@ theorem rev_acct (b? : Option BAcct) (t : Transition) (c : CacheAcct) (Pi : Opti
         simp only [Option.map, Option.some.injEq, Prod.mk.injEq] at h1
         obtain ⟨q1, q2⟩ := h1
         subst q1; subst q2
-        have hcore : CoreSome t.originalBundleAccount t r Mi Ms Mi Ms Ri Rs := fun b' a1 a2 a3 a4 =>
-          rev_core_some _ t c Mi Ms Mi Ms Ri Rs hb0 hm ht hc (Or.inr rfl) acc' r hu b' a1 a2 a3 a4
-        have := lift_some _ t r Mi Ms Mi Ms Ri Rs hcore t.presentBundleAccount rfl
+        obtain ⟨hc1, hPz', hwP⟩ := hcmp r rfl
+        have hdelP : t.prevStatus = .loadedNotExisting → Pi' = none := by
+          intro hl
+          have hMn : Mi = none := by
+            have := hm.some_iff; rw [hl] at this
+            cases hMi : Mi with
+            | none => rfl
+            | some i => rw [hMi] at this; cases this
+          exact hc1 rfl hMn
+        have hcore : CoreSome t.originalBundleAccount t r Pi' Ps' Mi Ms Ri Rs := fun b' a1 a2 a3 a4 =>
+          rev_core_some _ t c Mi Ms Mi Ms Ri Rs hb0 hm ht hc Pi' Ps' hdelP acc' r hu hwP b' a1 a2 a3 a4
+        have := lift_some _ t r Pi' Ps' Mi Ms Ri Rs hcore t.presentBundleAccount rfl
           (fun _ k hk => by
             cases hk with
             | inl h => simp [Transition.originalBundleAccount, BMap.get] at h
             | inr h => exact h) b'? hR hwo
         simp only [revApplyO]
         cases hx : revApply b'? r with
-        | none => exact ⟨rfl, fun _ => rfl⟩
+        | none =>
+          rw [hx] at this
+          obtain ⟨w1, w2, w3⟩ := this
+          exact ⟨by rw [w1, w2], fun k => by rw [w3, hPz' w1]⟩
         | some b'' => rw [hx] at this; exact this.1
+
+/-- entries are never removed by a merge, and an address with a revert is in the bundle afterwards -/
+theorem oneAcct_pres (b? : Option BAcct) (t : Transition) (b?' : Option BAcct) (rev : Option ARevert)
+    (h : oneAcct b? t = some (b?', rev)) :
+    (b?.isSome = true → b?'.isSome = true) ∧ (rev.isSome = true → b?'.isSome = true) := by
+  cases b? with
+  | some acc =>
+    simp only [oneAcct] at h
+    cases hu : updateAndCreateRevert acc t with
+    | none => rw [hu] at h; cases h
+    | some x =>
+      rw [hu] at h
+      simp only [Option.map, Option.some.injEq, Prod.mk.injEq] at h
+      rw [← h.1]; exact ⟨fun _ => rfl, fun _ => rfl⟩
+  | none =>
+    simp only [oneAcct] at h
+    cases hu : updateAndCreateRevert t.originalBundleAccount t with
+    | none => rw [hu] at h; cases h
+    | some x =>
+      obtain ⟨a', rv⟩ := x
+      rw [hu] at h
+      cases rv with
+      | none =>
+        simp only [Option.map, Option.some.injEq, Prod.mk.injEq] at h
+        rw [← h.2]; exact ⟨fun hh => (by cases hh), fun hh => (by cases hh)⟩
+      | some r =>
+        simp only [Option.map, Option.some.injEq, Prod.mk.injEq] at h
+        rw [← h.1]; exact ⟨fun _ => rfl, fun _ => rfl⟩
 
 end Revm.Proofs.Bundle
